@@ -22,6 +22,7 @@ type job struct {
 	Reason    string `json:"reason,omitempty"`
 	GoLoop    int    `json:"goloop,omitempty"` // KF witness: Go library loop over N catching callbacks
 	Calib     bool   `json:"calib,omitempty"`
+	Shape     string `json:"shape,omitempty"`
 	Mode      string `json:"mode,omitempty"`       // "" DoString, "pcall", "resume"
 	RemoveCtx bool   `json:"remove_ctx,omitempty"` // SetContext, RemoveContext, cancel: must run like a context-free state
 	Class     string `json:"class"`
@@ -81,7 +82,7 @@ func runJob(j job) jobResult {
 	}
 
 	// trace run
-	tr := newEnvX(true, j.Cap+1, j.Reason, j.RemoveCtx)
+	tr := newEnvM(true, j.Cap+1, j.Reason, j.RemoveCtx, j.Mode)
 	var points []tracePoint
 	tr.c.onPoll = func(th *luaState, i int) {
 		s := tr.snapshot(th)
@@ -111,7 +112,7 @@ func runJob(j job) jobResult {
 	// reference run without a context
 	var refEmits []string
 	if !j.NoRef {
-		rf := newEnv(false, 0, "")
+		rf := newEnvM(false, 0, "", false, j.Mode)
 		if !res.Terminated {
 			rf.maxEmits = len(tr.emits) + 1
 		}
@@ -129,7 +130,7 @@ func runJob(j job) jobResult {
 	}
 
 	if j.Calib {
-		res.Script = calibScript(j.Src)
+		res.Script = calibScript(j.Src, j.Shape)
 	}
 
 	// firing indices
@@ -164,7 +165,7 @@ func runJob(j job) jobResult {
 	}
 
 	for _, k := range ks {
-		e := newEnv(true, k, j.Reason)
+		e := newEnvM(true, k, j.Reason, false, j.Mode)
 		var stack []string
 		before := 0
 		e.c.onFire = func(th *luaState) {
